@@ -32,7 +32,7 @@ def thread_data(t, seed):
     t0 = bytearray(b"\xaa" * len(f3)); t0[:q3.header_len] = f3[:q3.header_len]
     off, ln = ext[2]; t0[off:off + ln] = f3[off:off + ln]
     rngs = [(ext[1][0], ext[1][0] + ext[1][1] - 1), (ext[3][0], ext[3][0] + ext[3][1] - 1)]
-    hdr, mbody, layout = httpsim.multipart(f3, rngs, httpsim.Style(boundary="bnd%dx%s" % (t, "7" * (3 + 5 * t))))
+    hdr, mbody, layout = httpsim.multipart(f3, rngs, httpsim.Style(boundary="b+(%d).x?%s" % (t, "7" * (3 + 5 * t))))   # legal boundary characters that are regex metacharacters: the escaping path runs, differently per thread
     ctype = [l for l in hdr if l.lower().startswith(b"content-type")][0]
     dct = x(universe.DELTA_DICT)
     fzd, hzd, bzd = zckref.build_file(pieces + [x(blk["d"])], comp=2, htype=2, ctype=0, dict_=dct)
